@@ -6,6 +6,8 @@ mod c04;
 mod c05;
 mod repairs;
 mod c09;
+mod c10;
+mod c12;
 mod c11;
 mod layers;
 mod gens;
@@ -47,7 +49,9 @@ fn main() {
         "C04" => c04::run(&ctx),
         "C05" => c05::run(&ctx),
         "C09" => c09::run(&ctx),
+        "C10" => c10::run(&ctx),
         "C11" => c11::run(&ctx),
+        "C12" => c12::run(&ctx),
         _ => {
             eprintln!("unknown property {prop}");
             std::process::exit(2);
